@@ -40,6 +40,8 @@ func (c19) Thresholds(tier string) map[string]int64 {
 		"half-way:positive":                  2000,
 		"conversion-error-cases":             6000,
 		"round_places-within-1-ulp-of-bound": 1,
+		"nested-call-arguments":              100000,
+		"string-of-a-string":                 30000,
 	}
 	for _, cl := range c19Classes {
 		th["class:"+cl] = 1500
@@ -51,7 +53,7 @@ func (c19) Thresholds(tier string) map[string]int64 {
 }
 
 func (c19) Rule() string {
-	return "case = 24 finite doubles x with |x| < 2^52 drawn from the classes {" + strings.Join(c19Classes, ", ") + "}, pre-loaded into the variable store (no literal printing involved), and one script that captures, through a raw host function, the typed results of floor, ceil, inc, dec, integer, decimal, round, round_places(x,n) for a PRNG n in 0..8, number(string(x)), number(x), string(string(x)), bool(string(b)), bool(b) for each of them; plus two scripts converting a string that is neither a number nor a boolean (must be an error). Oracle: the inequalities of the property evaluated exactly in rational arithmetic (math/big; a float64 comparison would accept round(0.49999999999999994) = 1, because 1 - x rounds to 0.5) (integrality, floor<=x<floor+1, ceil-1<x<=ceil, inc = least integer > x, dec = greatest integer < x, integer truncates toward zero, integer+decimal == x, |round-x|<=0.5, number(string(x)) == x numerically, identities); round_places: |r-x| <= 0.5*10^-n + 2 ulp(x), computed with math/big rationals. Non-trivial: x is non-integral, a half-way case, adjacent to an integer, or a signed zero. Distinct by the bit pattern of x."
+	return "case = 24 finite doubles x with |x| < 2^52 drawn from the classes {" + strings.Join(c19Classes, ", ") + "}, pre-loaded into the variable store (no literal printing involved), and one script that captures, through a raw host function, the typed results of floor, ceil, inc, dec, integer, decimal, round, round_places(x,n) for a PRNG n in 0..8, number(string(x)), number(x), string(string(x)), bool(string(b)), bool(b) for each of them, round_places again with arguments that are themselves calls (round_places(x, integer(p)), round_places(number(string(x)), number(string(n)))), and string(s), string(string(s)) for 6 strings from a pool with brackets, backslashes, quotes, blanks, line breaks, multi-byte and number/boolean look-alikes (must come back unchanged); plus two scripts converting a string that is neither a number nor a boolean (must be an error). Oracle: the inequalities of the property evaluated exactly in rational arithmetic (math/big; a float64 comparison would accept round(0.49999999999999994) = 1, because 1 - x rounds to 0.5) (integrality, floor<=x<floor+1, ceil-1<x<=ceil, inc = least integer > x, dec = greatest integer < x, integer truncates toward zero, integer+decimal == x, |round-x|<=0.5, number(string(x)) == x numerically, identities); round_places: |r-x| <= 0.5*10^-n + 2 ulp(x), computed with math/big rationals. Non-trivial: x is non-integral, a half-way case, adjacent to an integer, or a signed zero. Distinct by the bit pattern of x."
 }
 
 func (c19) Assumptions() []string {
@@ -60,6 +62,8 @@ func (c19) Assumptions() []string {
 		"strings used for the error cases are clearly neither numbers nor booleans (alphabetic words, the empty string, punctuation)",
 	}
 }
+
+var c19Strings = []string{"array[3]", "[b]x[/b]", "\\", "a\\b", "say \"hi\"", "  padded  ", "", "True", "true", "12", "1e3", "-0", "été", "日本", "{x}", "#tag", "// c", "<<cmd>>", "a]b[", "%", "\t", "line\nbreak", "\\[", "NaN", "0.50", "😀"}
 
 func c19Value(r *core.Rand) (float64, string) {
 	sign := func(x float64) float64 {
@@ -156,6 +160,11 @@ func (p c19) Run(c *core.Ctx) {
 		capStmt(hast.Call("string", v))
 		capStmt(hast.Call("bool", hast.Call("string", hast.Var(fmt.Sprintf("b%d", i)))))
 		capStmt(hast.Call("bool", hast.Var(fmt.Sprintf("b%d", i))))
+		// the same contracts when the arguments are themselves calls (an argument list under construction
+		// must survive the evaluation of a nested call)
+		st.HostSet(fmt.Sprintf("p%d", i), model.N(float64(places[i])+0.5))
+		capStmt(hast.Call("round_places", v, hast.Call("integer", hast.Var(fmt.Sprintf("p%d", i)))))
+		capStmt(hast.Call("round_places", hast.Call("number", hast.Call("string", v)), hast.Call("number", hast.Call("string", hast.Num(fmt.Sprint(places[i]))))))
 		c.Feature("class:" + cls[i])
 		c.Feature(fmt.Sprintf("places:%d", places[i]))
 		c.Feature("values")
@@ -170,7 +179,16 @@ func (p c19) Run(c *core.Ctx) {
 			c.Nontrivial(fmt.Sprint(math.Float64bits(xs[i])))
 		}
 	}
-	const perValue = 14
+	const perValue = 16
+	// strings: string() of a string returns it unchanged, whatever it contains
+	strs := make([]string, 6)
+	for j := range strs {
+		strs[j] = c19Strings[r.Intn(len(c19Strings))]
+		st.HostSet(fmt.Sprintf("s%d", j), model.S(strs[j]))
+		body = append(body,
+			&hast.Stmt{K: hast.SCall, X: hast.Call("cap", hast.Num(fmt.Sprint(10000+j)), hast.Call("string", hast.Var(fmt.Sprintf("s%d", j))))},
+			&hast.Stmt{K: hast.SCall, X: hast.Call("cap", hast.Num(fmt.Sprint(20000+j)), hast.Call("string", hast.Call("string", hast.Var(fmt.Sprintf("s%d", j)))))})
+	}
 	body = append(body, &hast.Stmt{K: hast.SLine, Parts: []hast.Part{hast.Lit("done")}})
 	prog := &hast.Program{Readers: 1, Nodes: []*hast.Node{{Title: "Start", Body: body}}}
 	scripts := hast.Render(prog, hast.L0())
@@ -253,6 +271,18 @@ func (p c19) Run(c *core.Ctx) {
 				c.Feature("round_places-within-1-ulp-of-bound")
 			}
 		}
+		for k, f := range map[int]string{15: "round_places(x, integer(p))", 16: "round_places(number(string(x)), number(string(n)))"} {
+			if v, ok := num(k, f); ok {
+				diff := new(big.Rat).Sub(ratOf(v), ratOf(x))
+				diff.Abs(diff)
+				half := new(big.Rat).SetFrac(big.NewInt(1), new(big.Int).Mul(big.NewInt(2), new(big.Int).Exp(big.NewInt(10), big.NewInt(int64(places[i])), nil)))
+				bound := new(big.Rat).Add(half, new(big.Rat).Mul(big.NewRat(2, 1), ulp(x)))
+				if diff.Cmp(bound) > 0 {
+					bad(i, f, got[base+k], fmt.Sprintf("need |r - x| <= 0.5*10^-%d + 2ulp(x); |r-x| = %s", places[i], diff.FloatString(25)))
+				}
+				c.Feature("nested-call-arguments")
+			}
+		}
 		if v, ok := num(9, "number(string(x))"); ok && !(v == x) {
 			bad(i, "number(string(x))", got[base+9], "need number(string(x)) == x")
 		}
@@ -270,6 +300,17 @@ func (p c19) Run(c *core.Ctx) {
 			c.Feature("contract-checks")
 			if v.T != hast.TBool || v.B != wantB {
 				bad(i, f, v, fmt.Sprintf("need %v", wantB))
+			}
+		}
+	}
+	for j, want := range strs {
+		for _, base := range []int{10000, 20000} {
+			v, ok := got[base+j]
+			c.Feature("contract-checks")
+			c.Feature("string-of-a-string")
+			if !ok || v.T != hast.TStr || v.S != want {
+				c.Violate("string() of a value that is already a string does not return it unchanged", map[string]any{"string": want, "result": v.String(), "nested_twice": base == 20000})
+				break
 			}
 		}
 	}
